@@ -55,6 +55,9 @@ inductive Ev where
   | pollClose
   /-- client: `send_request`. -/
   | sendRequest
+  /-- the application calls `resolve_request` on request `id` (shown to it earlier, handle not yet
+      dropped); the peer has sent a complete, well-formed HEADERS frame on the stream. -/
+  | resolve (id : Nat)
 deriving Repr, DecidableEq
 
 inductive Obs where
@@ -78,6 +81,12 @@ inductive Obs where
   | opened (id : Nat)
   /-- `send_request` returned `RemoteClosing`; no stream was opened. -/
   | remoteClosing
+  /-- `resolve_request` returned the request on stream `id`: it is being served. -/
+  | served (id : Nat)
+  /-- `resolve_request` on stream `id` failed or never returned although the peer sent a complete,
+      well-formed request.  The model never shows this; it exists for the oracle
+      (`H3.Spec.Goaway.okObs`) and the judge of observed histories. -/
+  | notServed (id : Nat)
 deriving Repr, DecidableEq
 
 /-! ### `shutdown` -/
@@ -204,6 +213,9 @@ def step (s : State) : Ev → State × List Obs
   | .recvGoaway id => ({ s with ctl := s.ctl ++ [id] }, [])
   | .pollClose => pollClose s
   | .sendRequest => sendRequest s
+  -- `RequestResolver::resolve_request` does not look at `sent_closing` / `recv_closing` / `closing`:
+  -- a request that was shown to the application is served whatever the state of the shutdown
+  | .resolve id => if s.ongoing.contains id then (s, [.served id]) else (s, [])
 
 /-- a history: the observations of every step, in order. -/
 def run : State → List Ev → State × List Obs
@@ -212,5 +224,12 @@ def run : State → List Ev → State × List Obs
     let r := step s e
     let r' := run r.1 es
     (r'.1, r.2 ++ r'.2)
+
+/-- the same history step by step: every event with what it showed. -/
+def trace : State → List Ev → List (Ev × List Obs)
+  | _, [] => []
+  | s, e :: es =>
+    let r := step s e
+    (e, r.2) :: trace r.1 es
 
 end H3.Goaway
